@@ -66,6 +66,7 @@ def units(tier, seed):
         if n <= 3:
             for k in range(0, len(dags), chunk):
                 us.append(('dag', n, dags[k:k + chunk], 'twoschema', tier))
+                us.append(('dag', n, dags[k:k + chunk], 'columnless', tier))
     for n in (2, 3):
         cyc = [e for e in digraphs(n) if not acyclic(n, e)]
         for k in range(0, len(cyc), 3):
@@ -96,6 +97,9 @@ def make_model(n, edges, kinds, extra, variant):
             refs.append(asm.ref('<', [tc], [hc], inline=True))
         else:
             refs.append(asm.ref(k, [hc], [tc], inline=True))
+    if variant == 'columnless':
+        # a table without any column (reachable through the API only) is still one of the database's tables
+        tables.insert(len(tables) // 2, asm.table('nocols', []))
     if extra and n >= 2:
         a = [nm[0][0], nm[0][1], 'id']
         b = [nm[n - 1][0], nm[n - 1][1], 'id']
